@@ -715,6 +715,7 @@ pub fn build(quick: bool) -> Check {
     families.push(Box::new(KindWalks { depth: if quick { 4 } else { 5 }, core: false }));
     families.push(Box::new(KindWalks { depth: if quick { 5 } else { 6 }, core: true }));
     families.push(Box::new(KindWalks { depth: if quick { 6 } else { 7 }, core: true }));
+    families.push(Box::new(super::soak::Soak { label: "all-mixes", lens: super::soak::lens(quick), mixes: super::soak::MIXES.to_vec(), opts: super::soak::opts_all().into_iter().filter(|o| o.1.seq_stride != 0).collect() }));
     families.push(Box::new(Fragmented {
         firsts: if quick { vec![0, 254] } else { vec![0, 1, 253, 254, 255] },
         nfrag: if quick { vec![2, 3] } else { vec![2, 3, 4] },
@@ -728,12 +729,12 @@ pub fn build(quick: bool) -> Check {
     Check {
         id: "C05",
         level: "model_checking",
-        rule: "every command kind after every kind of previous exchange x request ids {0,1,42,127,254,255}; every sequence of 4 (thorough: 5) exchanges over 21 kinds, and of 5-6 (6-7) over the 10 statement kinds (two statements, long data, closes, a query, PING), (replies of 1..304 packets, shim and library errors, chained resultsets, PREPARE replies, unanswered commands) with per-position request ids around the wrap; request sequence id x response length (1 and 4..520 packets, text and binary), each followed by a second command with an unrelated id; handshake responses with every id; 2-, 3- (thorough: 4-) fragment requests starting at ids around the wrap, with reads ending at every subset of the fragment boundaries; responses whose single row spans 2..4 maximal packets; responses of 40 KiB..1 MiB in 5..2000 packets under transport writes of at most 5 / 1460 / 23359 / 65536 bytes; four responses re-run with exactly one transport write accepting 1 byte / half / all but one byte, for every write of the undisturbed run. Oracle: packet i of a reply carries (last request id + 1 + i) mod 256. Non-trivial = request id != 0 (the only id the test clients use).".into(),
+        rule: "every command kind after every kind of previous exchange x request ids {0,1,42,127,254,255}; every sequence of 4 (thorough: 5) exchanges over 21 kinds, and of 5-6 (6-7) over the 10 statement kinds (two statements, long data, closes, a query, PING), (replies of 1..304 packets, shim and library errors, chained resultsets, PREPARE replies, unanswered commands) with per-position request ids around the wrap; request sequence id x response length (1 and 4..520 packets, text and binary), each followed by a second command with an unrelated id; handshake responses with every id; 2-, 3- (thorough: 4-) fragment requests starting at ids around the wrap, with reads ending at every subset of the fragment boundaries; responses whose single row spans 2..4 maximal packets; responses of 40 KiB..1 MiB in 5..2000 packets under transport writes of at most 5 / 1460 / 23359 / 65536 bytes; four responses re-run with exactly one transport write accepting 1 byte / half / all but one byte, for every write of the undisturbed run. Long scripted sessions: 130..4099 (thorough: up to 131101) ordinary commands of every kind on one connection in up to six mixes (even, prepare/close churn with growing ids, executions, long-data chunks, unanswered commands, text and library-answered commands) under several client/transport behaviours (pipelined, request ids advancing by 7, lock-step, 1..4093-byte reads, 7/11-byte writes), generated by a fixed rule, kept valid with the registry model and judged on the complete trace (callbacks with arguments, result, strict decode of every reply with its sequence ids). Oracle: packet i of a reply carries (last request id + 1 + i) mod 256. Non-trivial = request id != 0 (the only id the test clients use).".into(),
         assumptions: vec!["sequence ids of server packets are read by the independent framer (refwire)".into()],
         bounds: json!({"max_response_packets": 520, "fragments": if quick {2} else {3}}),
         exhaustive: true,
         caps_hit: vec![],
         families,
-        required: vec!["one_short_write_runs", "requests_of_three_or_more_packets", "kind_history_cases", "kind_walks", "request_id_255", "replies_wrapping_past_255", "fragmented_requests", "large_response_messages", "bulky_responses"],
+        required: vec!["one_short_write_runs", "requests_of_three_or_more_packets", "soak_sessions", "kind_history_cases", "kind_walks", "request_id_255", "replies_wrapping_past_255", "fragmented_requests", "large_response_messages", "bulky_responses"],
     }
 }
